@@ -118,22 +118,38 @@ def rule_pending_tables(ctx):
     created = sorted(s.targets[0].attr for s in walk_no_defs(init.node) if isinstance(s, ast.Assign) and is_self_attr(s.targets[0]) and s.targets[0].attr.endswith("_reqs"))
     fn = ctx.program.func(f"{APPSESSION}._errback_outstanding_requests")
     ctx.analysed(fn)
-    lst = [s for s in walk_no_defs(fn.node) if isinstance(s, ast.Assign) and norm.text(s.targets[0]) == "all_requests" and isinstance(s.value, ast.List)]
-    ctx.require(len(lst) == 1, "_errback_outstanding_requests: table list not found")
-    listed = sorted(e.attr for e in lst[0].value.elts if is_self_attr(e))
-    ctx.ob("every pending table created in __init__ is failed at session end", listed == created, f"created {created}, failed {listed}", fn.loc(lst[0]))
+    # the list of tables: a list/tuple literal of self.*_reqs attributes (assigned to a local or iterated directly)
+    lits = [x for x in ast.walk(fn.node) if isinstance(x, (ast.List, ast.Tuple)) and x.elts and all(is_self_attr(e) and e.attr.endswith("_reqs") for e in x.elts)]
+    ctx.require(len(lits) == 1, "_errback_outstanding_requests: table list not found")
+    lit = lits[0]
+    listed = sorted(e.attr for e in lit.elts)
+    ctx.ob("every pending table created in __init__ is failed at session end", listed == created, f"created {created}, failed {listed}", fn.loc(lit))
     ctx.ob("six request kinds", len(created) == 6, f"{created}", init.loc())
-    loops = [s for s in walk_no_defs(fn.node) if isinstance(s, ast.For)]
-    l1 = [l for l in loops if norm.text(l.iter) == "all_requests"]
-    ok = len(l1) == 1 and any(norm.text(c.func) == "outstanding.extend" and norm.text(c.args[0]) == f"{norm.text(l1[0].target)}.values()" for c in calls_in(l1[0])) and \
-        any(norm.text(c.func) == f"{norm.text(l1[0].target)}.clear" for c in calls_in(l1[0]))
+    lname = None
+    for st in walk_no_defs(fn.node):
+        if isinstance(st, ast.Assign) and st.value is lit and isinstance(st.targets[0], ast.Name):
+            lname = st.targets[0].id
+    loops = [s_ for s_ in walk_no_defs(fn.node) if isinstance(s_, ast.For)]
+    l1 = [l for l in loops if l.iter is lit or (lname is not None and norm.text(l.iter) == lname)]
+    coll = None
+    ok = False
+    if len(l1) == 1 and isinstance(l1[0].target, ast.Name):
+        tv = l1[0].target.id
+        ext = [c for c in calls_in(l1[0]) if isinstance(c.func, ast.Attribute) and c.func.attr == "extend" and isinstance(c.func.value, ast.Name)
+               and c.args and norm.text(c.args[0]) in (f"{tv}.values()", f"list({tv}.values())")]
+        clr = [c for c in calls_in(l1[0]) if norm.text(c.func) == f"{tv}.clear"]
+        if len(ext) == 1 and len(clr) == 1:
+            coll = ext[0].func.value.id
+            # the copy must be taken before the table is emptied
+            ok = ext[0].lineno < clr[0].lineno or (ext[0].lineno == clr[0].lineno and ext[0].col_offset < clr[0].col_offset)
     ctx.ob("each table is drained into the outstanding list and cleared", ok, "collection loop changed", fn.loc())
     g, mf, res = an.get(fn)
     rej = [(n, c) for n in g.stmt_nodes() for c in node_calls(n) if call_name(c) == "txaio.reject"]
-    ok = len(rej) == 1 and norm.text(rej[0][1].args[0]) == "request.on_reply" and norm.text(rej[0][1].args[1]) == "exc" and \
-        any(f[0] == "truth" and "is_called" in f[1] and not f[3] for f in mf.at(rej[0][0]))
+    l2 = [l for l in loops if coll is not None and norm.text(l.iter) == coll and isinstance(l.target, ast.Name)]
+    rv = l2[0].target.id if len(l2) == 1 else None
+    ok = len(rej) == 1 and rv is not None and norm.text(rej[0][1].args[0]) == f"{rv}.on_reply" and norm.text(rej[0][1].args[1]) == fn.params()[1] and \
+        any(f[0] == "truth" and "is_called" in f[1] and f"{rv}.on_reply" in f[1] and not f[3] for f in mf.at(rej[0][0]))
     ctx.ob("every collected request is rejected with the given error unless already completed", ok, "reject changed", fn.loc())
-    l2 = [l for l in loops if norm.text(l.iter) == "outstanding"]
     ctx.ob("the rejection loop runs over all collected requests", len(l2) == 1 and any(c is rej[0][1] for c in calls_in(l2[0])) if rej else False, "loop changed", fn.loc())
     for name in ("onLeave", "onDisconnect"):
         f2 = ctx.program.func(f"{APPSESSION}.{name}")
